@@ -278,14 +278,17 @@ Theorem ct_prune_descend_sound :
 Proof. exact audit_descend. Qed.
 Print Assumptions ct_prune_descend_sound.
 
-(* copy_zero_set / copy_cover_sets: a sample farther than new_upper_bound[0] + max_dist(query_chi) *)
+(* copy_zero_set / copy_cover_sets (repaired radius, fix F46): a sample farther than
+   new_upper_bound[0] + 2 max_dist(query_chi) from query_chi's point is needed by no query below query_chi.
+   With ONE max_dist (the code before F46) the statement is false: ct_copy_radius_refuted below. *)
 Theorem ct_prune_copy_sound :
   forall (d : dist) (pts : list Z) (K : nat) (dom : Z -> Prop),
+  (forall x y : Z, dom x -> dom y -> dd d x y = dd d y x) ->
   (forall x y z : Z, dom x -> dom y -> dom z -> dd d x z <= dd d x y + dd d y z) ->
   (forall x : Z, In x pts -> dom x) ->
   forall (qc : ctree) (ub : list ext) (v q' x : Z),
   node_ok d pts qc -> valid_b d pts K true qc ub = true -> ub0 ub = Some v ->
-  In q' (leaf_points qc) -> v + c_maxd qc < dd d (c_p qc) x -> dom x ->
+  In q' (leaf_points qc) -> v + c_maxd qc + c_maxd qc < dd d (c_p qc) x -> dom x ->
   ~ needed d pts K q' x.
 Proof. exact audit_copy. Qed.
 Print Assumptions ct_prune_copy_sound.
@@ -300,7 +303,7 @@ Proof. split; [split; [vm_compute; reflexivity | apply incl_refl]|]. vm_compute.
 Theorem ct_query_complete_partial : forall d dom top K fuel rows,
   metric_on dom d -> (forall x, In x (leaf_points top) -> dom x) ->
   ct_inv_b d top = true -> is_leaf top = false ->
-  ct_query d K (valid_b d (leaf_points top) K) fuel top = Some (rows, true) ->
+  ct_query false d K (valid_b d (leaf_points top) K) fuel top = Some (rows, true) ->
   forall q cands, In (q, cands) rows ->
     In q (leaf_points top) /\
     forall x, In x (leaf_points top) ->
@@ -311,7 +314,7 @@ Print Assumptions ct_query_complete_partial.
 Example ct_query_complete_partial_nonvacuous :
   metric_on (in_range 9) grid9_d /\ (forall x, In x (leaf_points grid9_ctree) -> in_range 9 x) /\
   ct_inv_b grid9_d grid9_ctree = true /\ is_leaf grid9_ctree = false /\
-  exists rows, ct_query grid9_d 4 (valid_b grid9_d (leaf_points grid9_ctree) 4) (ct_fuel grid9_ctree) grid9_ctree
+  exists rows, ct_query false grid9_d 4 (valid_b grid9_d (leaf_points grid9_ctree) 4) (ct_fuel grid9_ctree) grid9_ctree
                = Some (rows, true) /\ length rows = 9%nat.
 Proof.
   split; [apply metric_b_sound; vm_compute; reflexivity|].
@@ -332,7 +335,7 @@ Print Assumptions needed_gives_cand_complete.
 Theorem covertree_model_exact_partial : forall d N top k fuel rows q cands,
   metric_on (in_range N) d -> (k < N)%nat ->
   ct_inv_b d top = true -> ct_holds_b N top = true -> is_leaf top = false ->
-  ct_query d (S k) (valid_b d (leaf_points top) (S k)) fuel top = Some (rows, true) ->
+  ct_query false d (S k) (valid_b d (leaf_points top) (S k)) fuel top = Some (rows, true) ->
   In (q, cands) rows -> nodup_b cands = true ->
   forallb (fun j => (0 <=? j) && (j <? Z.of_nat N)) cands = true ->
   exists l, ct_select_fixed d (q :: cands) k = Some l /\ is_knn d N q k l.
@@ -342,7 +345,7 @@ Print Assumptions covertree_model_exact_partial.
 Example covertree_model_exact_partial_nonvacuous :
   metric_on (in_range 9) grid9_d /\ (3 < 9)%nat /\ ct_inv_b grid9_d grid9_ctree = true /\
   ct_holds_b 9 grid9_ctree = true /\ is_leaf grid9_ctree = false /\
-  exists rows, ct_query grid9_d 4 (valid_b grid9_d (leaf_points grid9_ctree) 4) (ct_fuel grid9_ctree) grid9_ctree
+  exists rows, ct_query false grid9_d 4 (valid_b grid9_d (leaf_points grid9_ctree) 4) (ct_fuel grid9_ctree) grid9_ctree
                = Some (rows, true) /\
     In (0, [6; 4; 2; 0; 3; 1]) rows /\ nodup_b [6; 4; 2; 0; 3; 1] = true /\
     forallb (fun j => (0 <=? j) && (j <? Z.of_nat 9)) [6; 4; 2; 0; 3; 1] = true.
@@ -354,14 +357,14 @@ Proof.
 Qed.
 
 (* the model query answers for every sample exactly once, whatever the distance function and the audit *)
-Theorem ct_query_rows : forall d K au fuel top rows ok,
-  ct_query d K au fuel top = Some (rows, ok) -> Permutation (map fst rows) (leaf_points top).
+Theorem ct_query_rows : forall oc d K au fuel top rows ok,
+  ct_query oc d K au fuel top = Some (rows, ok) -> Permutation (map fst rows) (leaf_points top).
 Proof. exact ct_query_rows_lemma. Qed.
 Print Assumptions ct_query_rows.
 
 (* ... and with fuel ct_fuel top it never runs out of fuel and never dereferences the children of a leaf *)
-Theorem ct_query_total : forall d K au top,
-  leaf100_b top = true -> ct_query d K au (ct_fuel top) top <> None.
+Theorem ct_query_total : forall oc d K au top,
+  leaf100_b top = true -> ct_query oc d K au (ct_fuel top) top <> None.
 Proof. exact ct_query_total_lemma. Qed.
 Print Assumptions ct_query_total.
 
@@ -373,13 +376,30 @@ Proof. vm_compute. reflexivity. Qed.
 Theorem ct_scale100_refuted :
   metric_b f25_d 4 = true /\
   ct_holds_b 4 f25_old_tree = true /\ ct_inv_b f25_d f25_old_tree = false /\
-  ct_query f25_d 2 no_audit (ct_fuel f25_old_tree) f25_old_tree
+  ct_query true f25_d 2 no_audit (ct_fuel f25_old_tree) f25_old_tree
     = Some ([(3, [3]); (2, [0]); (1, [0]); (0, [0])], true) /\
   ct_inv_b f25_d f25_new_tree = true /\
-  ct_query f25_d 2 (valid_b f25_d (leaf_points f25_new_tree) 2) (ct_fuel f25_new_tree) f25_new_tree
+  ct_query false f25_d 2 (valid_b f25_d (leaf_points f25_new_tree) 2) (ct_fuel f25_new_tree) f25_new_tree
     = Some ([(3, [3; 2; 1]); (1, [2; 1]); (2, [2; 1]); (0, [0; 2; 1])], true).
 Proof. exact ct_scale100_refuted_lemma. Qed.
 Print Assumptions ct_scale100_refuted.
+
+(* regression for F46: on the tree the real batch_create builds for eleven points of the plane (L1 metric) the
+   model of the query with the OLD copy radius (one query max_dist in copy_zero_set / copy_cover_sets) returns for
+   sample 4 the candidate list the real query returned, which misses its second nearest neighbour - although the
+   tree passes every checker and the bound was valid at every read; the repaired query is complete on that tree *)
+Theorem ct_copy_radius_refuted :
+  metric_b f46_d 11 = true /\ ct_inv_b f46_d f46_tree = true /\ ct_holds_b 11 f46_tree = true /\
+  leaf100_b f46_tree = true /\
+  (exists rows, ct_query true f46_d 3 (valid_b f46_d (leaf_points f46_tree) 3) (ct_fuel f46_tree) f46_tree
+                = Some (rows, true) /\ In (4, [6; 2; 0; 10; 4]) rows) /\
+  cand_complete_b f46_d 11 4 2 [6; 2; 0; 10; 4] = false /\
+  ct_select_fixed f46_d (4 :: [6; 2; 0; 10; 4]) 2 = Some [10; 0] /\
+  is_knn_b f46_d 11 4 2 [10; 0] = false /\ is_knn_b f46_d 11 4 2 [10; 7] = true /\
+  all_rows_complete f46_d 11 2
+    (ct_query false f46_d 3 (valid_b f46_d (leaf_points f46_tree) 3) (ct_fuel f46_tree) f46_tree) = true.
+Proof. exact ct_copy_radius_refuted_lemma. Qed.
+Print Assumptions ct_copy_radius_refuted.
 
 (* CoverTree_Build_Model.v models batch_create / batch_insert / split / dist_split with exact 13/10 arithmetic.
    Nothing general is proved about it; it is compared node by node with the real tree on every run.  Two recorded
